@@ -140,6 +140,28 @@ func (e *Engine) store(addr *Value, v Value) {
 	if addr == nil {
 		panic(targetPanic{msg: "runtime error: invalid memory address or nil pointer dereference"})
 	}
+	storeInto(addr, v)
+}
+
+// storeInto assigns element-wise into existing struct/array storage so that addresses of
+// fields and elements taken earlier stay valid (as in the reference interpreter).
+func storeInto(addr *Value, v Value) {
+	switch rhs := v.(type) {
+	case Struct:
+		if lhs, ok := (*addr).(Struct); ok && len(lhs) == len(rhs) {
+			for i := range lhs {
+				storeInto(&lhs[i], rhs[i])
+			}
+			return
+		}
+	case Array:
+		if lhs, ok := (*addr).(Array); ok && len(lhs) == len(rhs) {
+			for i := range lhs {
+				storeInto(&lhs[i], rhs[i])
+			}
+			return
+		}
+	}
 	*addr = copyVal(v)
 }
 
